@@ -363,10 +363,12 @@ impl AssemblyCode {
                     {
                         remove_second = true;
                     }
-                    // Remove STA followed by LDA
+                    // Remove STA followed by LDA (the load also sets N and Z: it's redundant only if
+                    // they describe A already)
                     if i1.mnemonic == AsmMnemonic::STA
                         && i2.mnemonic == AsmMnemonic::LDA
                         && i1.dasm_operand == i2.dasm_operand
+                        && flags == FlagsState::A
                         && !i2.protected
                     {
                         remove_second = true;
